@@ -78,7 +78,7 @@ def I11_nonempty(p):
 
 
 # ------------------------------------------------------------------------------------------ internal helper
-@contract('process:ProcessStatus.update_status', props=['C11', 'C12'])
+@contract('process:ProcessStatus.update_status', props=['C11'])
 class UpdateStatus:
     """Internal helper, called by add_info / update_info after info_map[identifier] has been rewritten, i.e. with the
     invariant broken at `identifier` only.  Post: the full invariant and the listing transition of the statement:
@@ -146,7 +146,7 @@ PROCESS_FIELDS_MODIFIED = ('_state', 'expected_exit', 'running_identifiers', 'la
                            'forced_reason', '_extra_args', '_program_name', '_process_index')
 
 
-@contract('process:ProcessStatus.add_info', props=['C11', 'C12'])
+@contract('process:ProcessStatus.add_info', props=['C11'])
 class AddInfo:
     """snapshot of one instance (handshake / process added): same synthesis as an event"""
     raises = ()
@@ -184,7 +184,7 @@ class AddInfo:
         return self.forced_state == ite(old.payload['state'] == ProcessStates.STOPPED, old.self.forced_state, None)
 
 
-@contract('process:ProcessStatus.update_info', props=['C11', 'C12'])
+@contract('process:ProcessStatus.update_info', props=['C11'])
 class UpdateInfo:
     """process event received from instance `identifier`"""
     raises = ()
